@@ -14,7 +14,7 @@ from mcx.ref import exmap as xm
 from mcx.seams import owned_random
 
 SCALES = (1.0, 0.5, 0.25, 1.5, 2.0)
-PLACES = ('near', 'between', 'far')
+PLACES = ('near', 'between', 'far', 'neartie')
 TOL = 1e-9
 
 
@@ -28,7 +28,7 @@ class C01(Check):
                  'scale factors on the real ExchangeMap, compared with a brute-force reference map')
     level_text = ('every labelled graph on 3..4 (quick) / 3..5 (thorough) atoms with an anchor, in 11 geometry classes '
                   '(incl. exactly collinear along 6 directions, nearly collinear with sin ~ 1e-9 and 3e-10, axis-aligned right angles, and a generic geometry shrunk to anchor separations of 0.01-0.1 nm), targets of 1-3 '
-                  '(thorough also 6, and 40 on references up to 4 atoms) atoms in 3 tie-free placements, 5 scale factors in (0, 2], all executed on '
+                  '(thorough also 6, and 40 on references up to 4 atoms) atoms in 3 tie-free placements and one near-tie placement (the two nearest anchors 1e-8 nm apart in distance), 5 scale factors in (0, 2], all executed on '
                   'the real code; a coverage statement over this finite product, not a proof for all reals')
     level_note = ('trusted: numpy arithmetic, the graph enumerator (self-tested against closed-form counts), the '
                   'in-memory builders (real parsers), the brute-force reference ref_map; not covered: near-collinear geometries other than the two stated classes, ties between anchors, references above 5 atoms')
@@ -91,7 +91,7 @@ class C01(Check):
         for s in ([case['s']] if 's' in case else SCALES):
             cdesc = dict(case, s=s)
             assign, exp, marg = xm.ref_map(rpos, anch, tpos, s)
-            assert marg >= xm.MARGIN * xm.SMALL.get(geo, 1.0) or len(anch) == 1
+            assert marg >= xm.MARGIN * xm.SMALL.get(geo, 1.0) or len(anch) == 1 or (place == 'neartie' and marg > 1e-9)
             try:
                 emap = ExchangeMap(ref, tgt, s)
                 # "p is the atom's position AT CONSTRUCTION": the target object is moved before the first use
